@@ -15,15 +15,15 @@ Proof. destruct l; reflexivity. Qed.
 Theorem gen_deme_history_eq mx h : gen_deme_history mx h = concat h.
 Proof. apply flat_map_id. Qed.
 Theorem gen_deme_all_individuals_eq mx h : gen_deme_all_individuals mx h = concat (concat h).
-Proof. unfold gen_deme_all_individuals. now rewrite flat_map_id, gen_deme_history_eq. Qed.
+Proof. unfold gen_deme_all_individuals. cbv zeta. now rewrite flat_map_id, !gen_deme_history_eq. Qed.
 Theorem gen_deme_current_population_eq mx h : gen_deme_current_population mx h = last (concat h) [].
-Proof. unfold gen_deme_current_population. now rewrite gen_deme_history_eq. Qed.
+Proof. unfold gen_deme_current_population. cbv zeta. now rewrite !gen_deme_history_eq. Qed.
 (* deme.best_individual = max over EVERYTHING the deme ever stored *)
 Theorem gen_deme_best_individual_eq mx h : gen_deme_best_individual mx h = best_of mx (concat (concat h)).
-Proof. unfold gen_deme_best_individual. now rewrite guarded_best, gen_deme_all_individuals_eq. Qed.
+Proof. unfold gen_deme_best_individual. rewrite !gen_deme_all_individuals_eq. now destruct (concat (concat h)). Qed.
 (* deme.best_current_individual = max over the LAST stored generation *)
 Theorem gen_deme_best_current_individual_eq mx h : gen_deme_best_current_individual mx h = best_of mx (last (concat h) []).
-Proof. unfold gen_deme_best_current_individual. now rewrite guarded_best, gen_deme_current_population_eq. Qed.
+Proof. unfold gen_deme_best_current_individual. rewrite !gen_deme_current_population_eq. now destruct (last (concat h) []). Qed.
 Theorem gen_deme_metaepoch_count_eq mx h : gen_deme_metaepoch_count mx h = length h - 1.
 Proof. reflexivity. Qed.
 
